@@ -5,6 +5,7 @@
   (`fail`, premature `eof`, `short k`, `interrupted`, or none).  Theorems hold for *every* schedule.
 -/
 import ElfVerif.Lemmas.Stream
+import ElfVerif.Lemmas.FaultEquiv
 namespace Elf.C17
 
 /-- **A failing seek makes `load_bytes` fail**, and nothing is cached. -/
@@ -105,8 +106,117 @@ theorem section_data_keeps_invariant (s : ElfStream) (sh : SectionHeader) (h : C
               simp only
               cases buf.getFrom? q2 <;> exact hinv
 
+/-! ## Query level: no residue, no fabricated data
+
+  `WInv r c` (Lemmas/FaultEquiv.lean): the reader's cache holds exactly the file's bytes for every
+  cached key and the contents are `c`.  It holds after `open_stream` under ANY schedule
+  (`open_leaves_no_residue`) and survives every query under ANY schedule whatever the query returned
+  (`queries_leave_no_residue`).  Given `WInv`, whatever a query answers with `Ok` is — as a value —
+  what the same query answers on a fault-free reader over the same contents (`*_fault_free`):
+  a failure leaves no residue, and no later answer is fabricated. -/
+
+theorem open_leaves_no_residue (sp : Spec) (dev : Device) (s : ElfStream) (d : Device)
+    (h : openStream sp dev = (.ok s, d)) : WInv s.reader dev.content :=
+  openStream_winv sp dev s d h
+
+/-- **No residue, for every history**: errors, early EOFs, short and interrupted reads at any
+    points of any sequence of queries leave the reader's cache equal to the file's bytes. -/
+theorem queries_leave_no_residue (qs : List Query) (s : ElfStream) (c : Array UInt8) (hw : WInv s.reader c) :
+    WInv (qs.foldl (fun s q => q.after s) s).reader c :=
+  history_winv qs s c hw
+
+/-- …and the parsed headers are never touched by a query. -/
+theorem queries_keep_headers (q : Query) (s : ElfStream) :
+    (q.after s).ehdr = s.ehdr ∧ (q.after s).shdrs = s.shdrs ∧ (q.after s).phdrs = s.phdrs :=
+  q.after_headers s
+
+/-- After opening under any schedule and any history of (possibly failing) queries, the state
+    is a `Twin` of every fault-free reader over the same contents. -/
+theorem reachable_twin (sp : Spec) (dev : Device) (s : ElfStream) (d : Device)
+    (h : openStream sp dev = (.ok s, d)) (qs : List Query) (r₀ : CachingReader) (h₀ : RInv r₀ dev.content) :
+    Twin (qs.foldl (fun s q => q.after s) s).reader r₀ dev.content :=
+  ⟨history_winv qs s _ (openStream_winv sp dev s d h), h₀⟩
+
+/-- **Any later `Ok` answer is the fault-free answer** — one theorem per query; `s.twin r₀` is the
+    same parser state on the fault-free reader `r₀`. -/
+theorem section_data_fault_free (s : ElfStream) (r₀ : CachingReader) (c : Array UInt8) (ht : Twin s.reader r₀ c)
+    (sh : SectionHeader) (v : Slice × Option CompressionHeader) (s' : ElfStream)
+    (h : s.sectionData sh = (.ok v, s')) :
+    ∃ s₀', (s.twin r₀).sectionData sh = (.ok v, s₀') ∧ Twin s'.reader s₀'.reader c :=
+  sectionData_twin s r₀ c ht sh v s' h
+
+theorem section_strtab_fault_free (s : ElfStream) (r₀ : CachingReader) (c : Array UInt8) (ht : Twin s.reader r₀ c)
+    (sh : SectionHeader) (v : Slice) (s' : ElfStream) (h : s.sectionDataAsStrtab sh = (.ok v, s')) :
+    ∃ s₀', (s.twin r₀).sectionDataAsStrtab sh = (.ok v, s₀') ∧ Twin s'.reader s₀'.reader c :=
+  strtab_twin s r₀ c ht sh v s' h
+
+theorem section_rels_fault_free (s : ElfStream) (r₀ : CachingReader) (c : Array UInt8) (ht : Twin s.reader r₀ c)
+    (sh : SectionHeader) (v : Iter Rel) (s' : ElfStream) (h : s.sectionDataAsRels sh = (.ok v, s')) :
+    ∃ s₀', (s.twin r₀).sectionDataAsRels sh = (.ok v, s₀') ∧ Twin s'.reader s₀'.reader c :=
+  rels_twin s r₀ c ht sh v s' h
+
+theorem section_relas_fault_free (s : ElfStream) (r₀ : CachingReader) (c : Array UInt8) (ht : Twin s.reader r₀ c)
+    (sh : SectionHeader) (v : Iter Rela) (s' : ElfStream) (h : s.sectionDataAsRelas sh = (.ok v, s')) :
+    ∃ s₀', (s.twin r₀).sectionDataAsRelas sh = (.ok v, s₀') ∧ Twin s'.reader s₀'.reader c :=
+  relas_twin s r₀ c ht sh v s' h
+
+theorem section_notes_fault_free (s : ElfStream) (r₀ : CachingReader) (c : Array UInt8) (ht : Twin s.reader r₀ c)
+    (sh : SectionHeader) (v : NoteIter) (s' : ElfStream) (h : s.sectionDataAsNotes sh = (.ok v, s')) :
+    ∃ s₀', (s.twin r₀).sectionDataAsNotes sh = (.ok v, s₀') ∧ Twin s'.reader s₀'.reader c :=
+  section_notes_twin s r₀ c ht sh v s' h
+
+theorem segment_notes_fault_free (s : ElfStream) (r₀ : CachingReader) (c : Array UInt8) (ht : Twin s.reader r₀ c)
+    (ph : ProgramHeader) (v : NoteIter) (s' : ElfStream) (h : s.segmentDataAsNotes ph = (.ok v, s')) :
+    ∃ s₀', (s.twin r₀).segmentDataAsNotes ph = (.ok v, s₀') ∧ Twin s'.reader s₀'.reader c :=
+  segment_notes_twin s r₀ c ht ph v s' h
+
+theorem shstrtab_fault_free (s : ElfStream) (r₀ : CachingReader) (c : Array UInt8) (ht : Twin s.reader r₀ c)
+    (v : Option Slice) (s' : ElfStream) (h : s.sectionHeadersWithStrtab = (.ok v, s')) :
+    ∃ s₀', (s.twin r₀).sectionHeadersWithStrtab = (.ok v, s₀') ∧ Twin s'.reader s₀'.reader c := by
+  obtain ⟨s₀', g1, g2, _⟩ := shstrtab_twin s r₀ c ht v s' h
+  exact ⟨s₀', g1, g2⟩
+
+theorem by_name_fault_free (s : ElfStream) (r₀ : CachingReader) (c : Array UInt8) (ht : Twin s.reader r₀ c)
+    (name : Slice) (v : Option SectionHeader) (s' : ElfStream) (h : s.sectionHeaderByName name = (.ok v, s')) :
+    ∃ s₀', (s.twin r₀).sectionHeaderByName name = (.ok v, s₀') ∧ Twin s'.reader s₀'.reader c :=
+  byName_twin s r₀ c ht name v s' h
+
+theorem symbol_table_fault_free (s : ElfStream) (r₀ : CachingReader) (c : Array UInt8) (ht : Twin s.reader r₀ c)
+    (ty : Nat) (v : Option (Table Symbol × Slice)) (s' : ElfStream)
+    (h : s.symbolTableOfType ty = (.ok v, s')) :
+    ∃ s₀', (s.twin r₀).symbolTableOfType ty = (.ok v, s₀') ∧ Twin s'.reader s₀'.reader c :=
+  symtab_twin s r₀ c ht ty v s' h
+
+theorem dynamic_fault_free (s : ElfStream) (r₀ : CachingReader) (c : Array UInt8) (ht : Twin s.reader r₀ c)
+    (v : Option (Table Dyn)) (s' : ElfStream) (h : s.dynamic = (.ok v, s')) :
+    ∃ s₀', (s.twin r₀).dynamic = (.ok v, s₀') ∧ Twin s'.reader s₀'.reader c :=
+  dynamic_twin s r₀ c ht v s' h
+
+theorem symbol_version_table_fault_free (s : ElfStream) (r₀ : CachingReader) (c : Array UInt8)
+    (ht : Twin s.reader r₀ c) (v : Option SymbolVersionTable) (s' : ElfStream)
+    (h : s.symbolVersionTable = (.ok v, s')) :
+    ∃ s₀', (s.twin r₀).symbolVersionTable = (.ok v, s₀') ∧ Twin s'.reader s₀'.reader c :=
+  symver_twin s r₀ c ht v s' h
+
+/-- the two primitives, for completeness -/
+theorem read_bytes_fault_free (r r₀ : CachingReader) (c : Array UInt8) (ht : Twin r r₀ c) (s e : Nat) (hse : s ≤ e)
+    (b : Slice) (r' : CachingReader) (h : r.readBytes s e = (.ok b, r')) :
+    ∃ r₀', r₀.readBytes s e = (.ok b, r₀') ∧ Twin r' r₀' c :=
+  readBytes_twin r r₀ c ht s e hse b r' h
+
 /- Non-vacuity: a 4-byte stream; a read that hits a `fail` on its first read call. -/
 example : (Device.readExact 5 ⟨#[1, 2, 3, 4], 0, [.fail], []⟩ 2).1 = .err .IOError := by decide
 example : (Device.readExact 8 ⟨#[1, 2, 3, 4], 1, [.short 1, .interrupted], []⟩ 3).1 = .ok () := by decide
+
+/- Non-vacuity at the parser level: a 64-byte ELF64 header; a hard error on the second I/O call makes
+   `open_stream` fail; with only short/interrupted reads it succeeds (and `open_leaves_no_residue`
+   applies to that schedule, which is not a legal-reader-only statement: `.fail` entries after the
+   calls made by `open` stay in the schedule for later queries). -/
+def hdr64 : Array UInt8 := #[0x7f,0x45,0x4c,0x46, 2,1,1,0, 0,0,0,0,0,0,0,0,
+  2,0, 62,0, 1,0,0,0, 0,0,0,0,0,0,0,0, 0,0,0,0,0,0,0,0, 0,0,0,0,0,0,0,0, 0,0,0,0, 64,0, 56,0, 0,0, 64,0, 0,0, 0,0]
+example : (openStream .any ⟨hdr64, 0, [.none, .fail], []⟩).1.isOk = false := by decide +kernel
+example : (openStream .any ⟨hdr64, 0, [.none, .none, .eof], []⟩).1.isOk = false := by decide +kernel
+example : (openStream .any ⟨hdr64, 0, [.none, .none, .short 3, .interrupted, .none, .none, .none, .fail, .eof], []⟩).1.isOk = true := by
+  decide +kernel
 
 end Elf.C17
